@@ -7,21 +7,27 @@ open ScVerif.Line
 def parseObs? (toks : List String) : Option Obs :=
   match toks with
   | ["fact", m, v, p] => do pure (.fact (← parseNat? m) (← parseNat? v) (← parseNat? p))
-  | ["get", m, w] => do pure (.get (← parseNat? m) (← parseNat? w))
-  | ["updok", v] => do pure (.updok (← parseNat? v))
+  | ["get", m, w] => do pure (.get 0 (← parseNat? m) (← parseNat? w))
+  | ["updok", v] => do pure (.updok 0 (← parseNat? v))
+  | ["kget", k, m, w] => do pure (.get (← parseNat? k) (← parseNat? m) (← parseNat? w))
+  | ["kgetnf", k] => do pure (.getnf (← parseNat? k))
+  | ["kupdok", k, v] => do pure (.updok (← parseNat? k) (← parseNat? v))
+  | ["kdelete", k] => do pure (.delete (← parseNat? k))
+  | ["kopen", k, m, uo] => do pure (.open_ (← parseNat? k) (← parseNat? m) (← parseBool? uo))
   | ["upderr"] => some .upderr
-  | ["updokbg", v, t] => do pure (.updokbg (← parseNat? v) (← parseNat? t))
+  | ["updokbg", v, t] => do pure (.updokbg 0 (← parseNat? v) (← parseNat? t))
   | ["quiesce"] => some .quiesce
-  | ["open", m, uo] => do pure (.open_ (← parseNat? m) (← parseBool? uo))
+  | ["open", m, uo] => do pure (.open_ 0 (← parseNat? m) (← parseBool? uo))
   | ["recv", i, w, n] => do pure (.recv (← parseNat? i) (← parseNat? w) (← parseBool? n))
   | ["idle", i] => do pure (.idle (← parseNat? i))
   | ["close", i] => do pure (.close (← parseNat? i))
   | ["getpanic"] => some (.bad "Get/panic")
   | ["geterr"] => some (.bad "Get/error")
   | ["getunimpl"] => some (.bad "Get/unimplemented")
+  | ["kbad", cls] => some (.bad cls)
   | ["updpanic"] => some (.bad "Update/panic")
   | ["openerr"] => some (.bad "Pull/open-failed")
-  | ["ended", _] => some (.bad "Pull/stream-ended")
+  | ["ended", i] => do pure (.ended (← parseNat? i))
   | _ => none
 
 def showVerdict : Verdict → String
